@@ -202,6 +202,113 @@ def build_generated(rng, tier):
     return worlds
 
 
+# ---------------------------------------------------------------- process-level sequences
+COMMENTS = ["; cost = 12 (unit cost)".replace("(", "").replace(")", ""), ";; found by planner x", "; plan length 7 - unit cost", ";"]
+
+
+def decorate_plan(rng, text):
+    """comment lines and trailing comments (without parentheses: nothing the scanner could take for a step), blank
+    lines, sometimes everything in upper case"""
+    out = []
+    if rng.random() < 0.6:
+        out.append(rng.choice(COMMENTS))
+    for l in text.split("\n"):
+        out.append(l + (rng.choice(["  ; step", " ;", "\t; ok"]) if l.strip() and rng.random() < 0.25 else ""))
+        if rng.random() < 0.3:
+            out.append(rng.choice(["", "   ", "; note: checked", "\t", ""]))
+    text = "\n".join(out)
+    if rng.random() < 0.3:
+        text = text.upper()
+    return text
+
+
+def build_sequence_worlds(rng, n):
+    """one domain, 2-3 problems over it (another initial state; an extra item)"""
+    out = []
+    for _ in range(n):
+        numeric = rng.random() < 0.5
+        w, agents, items = gen_world(rng, numeric, rng.choice([2, 3, 3, 4]), with_when=rng.random() < 0.15, dense=rng.random() < 0.5)
+        extra = [("i%d" % (len(items) + 1), "item")]
+        obj_sets = [agents + items, agents + items, agents + items + extra]
+        if rng.random() < 0.4:
+            obj_sets = obj_sets[:1] + obj_sets[2:]
+        problems = []
+        for k, objs in enumerate(obj_sets):
+            st = G.gen_state(rng, w, objs, density=rng.choice([0.3, 0.5, 0.7]))
+            st["fluents"] = [(f, a, rng.choice(DYADIC)) for f, a, _ in st["fluents"]]
+            problems.append(G.problem_text(w, objs, st, name="prob%d" % k, domain="ma"))
+        names = [a for a, _ in agents]
+        out.append({"domain_text": G.render(w.domain_tree("ma"), rng, False), "problems": problems, "agents": names,
+                    "features": sorted(w.features), "steps_n": [rng.choice([2, 4, 6, 8]) for _ in problems],
+                    "walk_seeds": [rng.randint(1, 10 ** 9) for _ in problems], "switch": rng.choice([0.5, 0.7, 0.9])})
+    return out
+
+
+def build_sequences(rng, tier):
+    """ONE PlanConverter / Domain object over several plans, problems, agent lists, both settings of the flag"""
+    worlds = build_sequence_worlds(rng, {"quick": 14, "thorough": 70}[tier])
+    jobs, owner = [], []
+    for i, sw in enumerate(worlds):
+        for k, pt in enumerate(sw["problems"]):
+            jobs.append({"op": "c15.walk", "domain_text": sw["domain_text"], "problem_text": pt, "agents": sw["agents"],
+                         "steps": sw["steps_n"][k], "seed": sw["walk_seeds"][k], "switch": sw["switch"]})
+            owner.append((i, k))
+    walks = run_impl(jobs)
+    plans = {o: wk.get("plan") for o, wk in zip(owner, walks)}
+    seqs = []
+    for i, sw in enumerate(worlds):
+        steps = []
+
+        def step(k, plan, text, agents, flag, tag, style):
+            steps.append({"kind": "sequence:" + tag, "problem": k, "domain_text": sw["domain_text"], "problem_text": sw["problems"][k],
+                          "plan_text": text, "plan": [[t.lower() for t in st] for st in plan], "agents": list(agents), "flag": flag,
+                          "features": sw["features"], "style": style})
+        for k in range(len(sw["problems"])):
+            plan = plans.get((i, k))
+            if not plan:
+                continue
+            style = rng.choice(STYLES)
+            text = render_plan(rng, plan, style)
+            order = list(sw["agents"])
+            flag = rng.random() < 0.5
+            step(k, plan, text, order, flag, "plain", style)
+            step(k, plan, text, order, not flag, "other-flag", style)
+            shuffled = list(order)
+            rng.shuffle(shuffled)
+            if rng.random() < 0.5:
+                shuffled = list(reversed(order))
+            step(k, plan, decorate_plan(rng, render_plan(rng, plan, rng.choice(["shipped", "bare", "colon", "spaced", "stamped"]))),
+                 shuffled, rng.random() < 0.5, "decorated", "decorated")
+            others = [j for j in range(len(sw["problems"])) if j != k]
+            if others and rng.random() < 0.6:
+                # the same plan text against another problem of the same Domain object (valid there or not: the spec decides)
+                step(rng.choice(others), plan, text, order, rng.random() < 0.5, "other-problem", style)
+        if len(steps) < 3:
+            continue
+        rng.shuffle(steps)
+        for _ in range(rng.randint(1, 2)):                      # an earlier call again, verbatim
+            again = dict(rng.choice(steps))
+            again["kind"] = "sequence:again"
+            steps.append(again)
+        seqs.append({"domain_text": sw["domain_text"], "problems": sw["problems"], "steps": steps})
+    return seqs
+
+
+def run_sequences(seqs, hashseeds):
+    """every sequence is one job in a worker process of its own"""
+    results = [None] * len(seqs)
+    for hs in hashseeds:
+        idx = [i for i in range(len(seqs)) if i % len(hashseeds) == hashseeds.index(hs)]
+        for b in range(0, len(idx), 16):
+            chunk = idx[b:b + 16]
+            jobs = [{"op": "c15.sequence", "domain_text": seqs[i]["domain_text"], "problems": seqs[i]["problems"],
+                     "steps": [{"problem": s["problem"], "plan_text": s["plan_text"], "agents": s["agents"], "flag": s["flag"]}
+                               for s in seqs[i]["steps"]]} for i in chunk]
+            for i, r in zip(chunk, run_impl(jobs, hashseed=hs, nproc=len(chunk))):
+                results[i] = r
+    return results
+
+
 # ---------------------------------------------------------------- the plans shipped with the repository
 SHIPPED = [
     ("sokoban", "sokoban_domain.pddl", "sokoban_problem.pddl", "sokoban_plan.txt", ["player-01", "player-02"]),
@@ -280,10 +387,11 @@ def case_lit(inp, res, eps_hex):
         joint, jtext = "Raised", "[]"
     calls = "None" if inp.get("plan") is None else "(Some %s)" % clist([ccall(c) for c in inp["plan"]])
     return ("{| c_text := %s; c_nums := %s; c_eps := %s; c_objs := %s; c_init := %s; c_plan := %s; c_calls := %s; "
-            "c_agents := %s; c_flag := %s; c_joint := %s; c_joint_text := %s; c_seq_final := %s; c_joint_final := %s |}") % (
+            "c_agents := %s; c_flag := %s; c_joint := %s; c_joint_text := %s; c_seq_final := %s; c_joint_final := %s; "
+            "c_intact := %s |}") % (
         cstr(inp["domain_text"]), nums, chex(float.fromhex(eps_hex)), objs, init, cstr(inp["plan_text"]), calls,
         clist([cstr(a) for a in inp["agents"]]), cbool(inp["flag"]), joint, jtext,
-        cobs_state(res.get("seq_final")), cobs_state(res.get("joint_final")))
+        cobs_state(res.get("seq_final")), cobs_state(res.get("joint_final")), cbool(res.get("intact", True)))
 
 
 def consts_header(k):
@@ -400,11 +508,16 @@ def run(args):
     except Exception as e:  # noqa
         rep.coverage["non_interference_equals_C16_spec"] = "not compiled: %s" % e
     rng = random.Random(args.seed * 15485863 + 15)
+    seqs = []
     if args.replay:
         data = json.load(open(args.replay))
-        inputs = [data["input"]["case"]]
+        if "sequence" in data["input"]:
+            inputs, seqs = [], [data["input"]["sequence"]]
+        else:
+            inputs = [data["input"]["case"]]
     else:
         inputs = build_inputs(rng, args.tier)
+        seqs = build_sequences(rng, args.tier)
     pre = run_impl([{"op": "c15.consts"}, {"op": "c15.facts"}, {"op": "core.numeric_config"}], nproc=1)
     consts, facts, cfg = pre
     f_ok = facts_ok(facts)
@@ -420,11 +533,31 @@ def run(args):
     else:
         results = run_impl(jobs)
         hash_seeds = [0]
+    # process-level sequences: each step becomes a case of its own (the model is evaluated on THAT call's inputs)
+    seq_of, seq_inputs, seq_results = {}, [], []
+    seq_stats = {"jobs": len(seqs), "steps": 0, "step_kinds": {}, "jobs_failed": 0, "not_intact": 0}
+    for q, qr in zip(seqs, run_sequences(seqs, hash_seeds)):
+        if not isinstance(qr, dict) or "steps_out" not in qr:
+            seq_stats["jobs_failed"] += 1
+            seq_stats.setdefault("failures", []).append(str(qr)[:300])
+            continue
+        for i, (st, o) in enumerate(zip(q["steps"], qr["steps_out"])):
+            seq_of[len(seq_inputs)] = (q, i)
+            seq_inputs.append(st)
+            seq_results.append(o)
+            seq_stats["steps"] += 1
+            seq_stats["step_kinds"][st["kind"]] = seq_stats["step_kinds"].get(st["kind"], 0) + 1
+    # sequence steps first: their replays re-run the whole job in a process of its own
+    inputs = seq_inputs + list(inputs)
+    results = seq_results + list(results)
+    seq_stats["not_intact"] = sum(1 for r in results if not r.get("intact", True))
     cases = []
-    for inp, res in zip(inputs, results):
-        cases.append({"lit": case_lit(inp, res, cfg["epsilon"]),
-                      "input": {"case": inp, "implementation": {k: res.get(k) for k in ("joint", "seq_final", "joint_final", "extracted", "load_raised")},
-                                "constants": consts},
+    for n, (inp, res) in enumerate(zip(inputs, results)):
+        desc = {"case": inp, "implementation": {k: res.get(k) for k in ("joint", "seq_final", "joint_final", "extracted", "load_raised", "intact")},
+                "constants": consts}
+        if n in seq_of:
+            desc["sequence"], desc["step"] = seq_of[n]
+        cases.append({"lit": case_lit(inp, res, cfg["epsilon"]), "input": desc,
                       "nontrivial": nontrivial(inp, res), "witness_of": inp.get("witness_of")})
     header = consts_header(consts if "regex" in consts else {"regex": "?", "nop": "?"})
     raw, info = run_case_shards(PROP, "Corr.C15", [c["lit"] for c in cases], shard_size=12, run_fn="run impl_consts",
@@ -479,6 +612,12 @@ def run(args):
     cov["enumerated_two_action_plans"] = {"worlds": PAIR_WORLDS,
                                           "note": "every valid two-action plan with different executing agents from the initial state of each world "
                                                   "(all of them when pairs_used == pairs_total, a random subset otherwise), agent list in both orders"}
+    cov["process_level_sequences"] = dict(seq_stats, note="one worker process per sequence: ONE Domain object, 2-3 problems parsed with it, ONE "
+                                          "PlanConverter converting 5-14 plans (each plan with both flag values, agent list in given / shuffled / "
+                                          "reversed order, the same text against another problem, an earlier call again verbatim), one plan-file "
+                                          "path rewritten, equal agent lists passed as the same list object; plan texts decorated with ';' comments, "
+                                          "blank lines, upper case. Every step is judged as a case of its own; 'intact' = agent list, plan file and "
+                                          "the problem's initial state unchanged by the call")
     cov["constants_read_from_module"] = consts
     cov["numeric_config"] = cfg
     cov["hash_seeds"] = hash_seeds
